@@ -104,9 +104,13 @@ package websocket
 //@   ensures ctlmsg: isProtocolMessage ==> ok && isCtl(opcode)                                                  // prop C13
 //@   ensures own: err == nil ==> (message != nil ==> liveP[message]) && (frame != nil ==> liveP[frame]) && (protocolMessage != nil ==> liveP[protocolMessage])   // prop C11
 //@   ensures size: err == nil && message != nil && limit(c) > 0 ==> len(*message) <= limit(c)                  // prop C15
-//@   ensures keepsize: err == nil && limit(c) > 0 && c.message != nil && !c.gClosed0 ==> len(*c.message) <= limit(c)   // prop C15
+//@   ensures keepsize: err == nil && limit(c) > 0 && c.gRMsg != 0 ==> len(box(c.gRMsg, "[]byte")) <= limit(c)   // prop C15
+//@   ensures samec: c == old(c)
+//@   ensures wiring: c.commonFields == old(c.commonFields) && c.Engine == old(c.Engine) && c.Engine.BodyAllocator == old(c.Engine.BodyAllocator) && c.Engine.ReadLimit == old(c.Engine.ReadLimit) && c.commonFields.MessageLengthLimit == old(c.commonFields.MessageLengthLimit) && allocator == old(allocator)
+//@   ensures apart: (message != nil && frame != nil ==> message != frame) && (isProtocolMessage ==> message == nil && frame == nil) && (protocolMessage != nil ==> isProtocolMessage)   // prop C11
+//@   ensures quiet: err == nil && !ok ==> message == nil && frame == nil && protocolMessage == nil && !isProtocolMessage
 //@   ensures ctlsize: err == nil && protocolMessage != nil ==> len(*protocolMessage) <= 125                    // prop C13 C15
-//@   assigns everything
+//@   assigns everything, c.gRCache, c.gRMsg, c.gRType, c.gRExp, c.gRComp, c.gExp0, c.gType0, c.gMsg0, c.gClosed0
 //@   at lock#1 ghost { c.gExp0 = c.expectingFragments; c.gType0 = c.msgType; c.gMsg0 = c.message; c.gClosed0 = c.closed }
 //@ func (*Conn).Parse$2
 //@   inline
@@ -121,3 +125,55 @@ package websocket
 //@   note user-supplied decompressor
 //@   ensures result != nil
 //@   assigns allocates
+
+// ---- dispatch of what one frame produced: ownership of the buffers passes to the handlers (C11); the handlers are user
+// code run through the connection's executor: they reach the connection only through its public methods and never see the
+// reader's private buffers
+//@ pred ReaderKeeps(c *Conn) := c.commonFields == old(c.commonFields) && c.Engine == old(c.Engine) && c.Engine.BodyAllocator == old(c.Engine.BodyAllocator) && c.Engine.ReadLimit == old(c.Engine.ReadLimit) && c.commonFields.MessageLengthLimit == old(c.commonFields.MessageLengthLimit) && !holds(c.mux) && (c.gRMsg != 0 ==> box(c.gRMsg, "[]byte") == old(box(c.gRMsg, "[]byte")) && liveP[c.gRMsg]) && (c.gRCache != 0 ==> box(c.gRCache, "[]byte") == old(box(c.gRCache, "[]byte")) && liveP[c.gRCache])
+//@ func (*Conn).handleMessage
+//@   trusted
+//@   havoc
+//@   requires pbody != nil ==> liveP[pbody]
+//@   ensures ReaderKeeps(c)
+//@   ensures forall q int :: q != pbody && old(liveP[q]) ==> liveP[q]
+//@ func (*Conn).handleDataFrame
+//@   trusted
+//@   havoc
+//@   requires pbody != nil ==> liveP[pbody]
+//@   ensures ReaderKeeps(c)
+//@   ensures forall q int :: q != pbody && old(liveP[q]) ==> liveP[q]
+//@ func (*Conn).handleProtocolMessage
+//@   trusted
+//@   havoc
+//@   requires pbody != nil ==> liveP[pbody]
+//@   ensures ReaderKeeps(c)
+//@   ensures forall q int :: q != pbody && old(liveP[q]) ==> liveP[q]
+//@ func (*Conn).WriteClose
+//@   trusted
+//@   havoc
+//@   ensures ReaderKeeps(c)
+//@   ensures forall q int :: old(liveP[q]) ==> liveP[q]
+
+//@ ghost local Conn.gSent1009 : Bool
+//@ func (*Conn).Parse$1
+//@   inline
+//@ func (*Conn).Parse
+//@   props C15 C13 C14 C11
+//@   safety index slice nil div assert panic make lock
+//@   requires WsWired(c) && !holds(c.mux)
+//@   requires limit(c) > 0 && c.gRMsg != 0 ==> len(box(c.gRMsg, "[]byte")) <= limit(c)
+//@   ensures reply1009: retErr == ErrMessageTooLarge || retErr == ErrControlMessageTooBig ==> c.gSent1009              // prop C15
+//@   ensures unlocked: !holds(c.mux)                                                                                  // prop C14
+//@   assigns everything
+//@   at entry ghost { c.gSent1009 = false }
+//@   at unlock#3 assert cachelim: c.Engine.ReadLimit > 0 ==> len(*c.bytesCached) <= c.Engine.ReadLimit || len(*c.bytesCached) == len(data)   // prop C15
+//@   at unlock#3 assert cachelive: c.bytesCached != nil && liveP[c.bytesCached]                                       // prop C11
+//@   at before:WriteClose#1 assert code: arg_code == 1009                                                             // prop C15
+//@   at call:WriteClose#1 ghost { c.gSent1009 = true }
+//@   at before:handleMessage#1 assert noerr: err == nil && message != nil                                            // prop C13
+//@   at before:handleDataFrame#1 assert noerr: err == nil && frame != nil                                            // prop C13
+//@   at before:handleProtocolMessage#1 assert noerr: err == nil                                                      // prop C13
+//@   loop 1
+//@     invariant WsWired(c) && !holds(c.mux) && allocator == c.Engine.BodyAllocator && !c.gSent1009
+//@     invariant frame == nil && message == nil && protocolMessage == nil && !isProtocolMessage && err == nil
+//@     invariant limit(c) > 0 && c.gRMsg != 0 ==> len(box(c.gRMsg, "[]byte")) <= limit(c)
